@@ -1530,10 +1530,32 @@ impl Exec {
             "compact" => {
                 assert!(self.wtx.is_none(), "HARNESS: script error: compact with a live write transaction");
                 let (len0, syncs0) = (self.store.len(), self.store.syncs());
+                // compact() must finish in a bounded number of passes: a watchdog ends the process (status 134; the journal
+                // names this step) if it is still committing far beyond the bound the specification allows, or does not return
+                let done = std::sync::Arc::new(std::sync::atomic::AtomicBool::new(false));
+                let watchdog = {
+                    let (done, store) = (done.clone(), self.store.clone());
+                    let bound = 16 * (len0 as u64 / self.cfg.page_size as u64 + 8) + 200;
+                    std::thread::spawn(move || {
+                        let t0 = std::time::Instant::now();
+                        while !done.load(std::sync::atomic::Ordering::Acquire) {
+                            std::thread::sleep(std::time::Duration::from_millis(20));
+                            if store.syncs() - syncs0 > bound || t0.elapsed() > std::time::Duration::from_secs(120) {
+                                if done.load(std::sync::atomic::Ordering::Acquire) {
+                                    return;
+                                }
+                                eprintln!("WATCHDOG: compact() has not returned after {} syncs / {:?} (bound {bound} syncs): it does not finish", store.syncs() - syncs0, t0.elapsed());
+                                std::process::abort();
+                            }
+                        }
+                    })
+                };
                 let r = match self.db.as_mut().unwrap().compact() {
                     Ok(b) => ok(json!(b)),
                     Err(e) => er(e),
                 };
+                done.store(true, std::sync::atomic::Ordering::Release);
+                let _ = watchdog.join();
                 let mut evs = Self::with_r(op, r);
                 evs[0]["len0"] = json!(len0);
                 evs[0]["len1"] = json!(self.store.len());
